@@ -137,7 +137,11 @@ Recv(x, s, k, b, ii, cred) ==
 \* updateContext :203 at a new round index: latches reset, a new wrapper -- beyond Ring contexts the oldest one, cleared
 Advance(x) == LET ni == x.i + 1 IN
               [x EXCEPT !.i = ni, !.step = 0, !.pc = FALSE, !.cd = FALSE, !.cm = FALSE, !.over = {},
-                        !.wr = IF ni > Ring THEN [@ EXCEPT ![ni - Ring] = EmptyWrapper] ELSE @]
+                        !.wr = IF ni > Ring THEN [@ EXCEPT ![ni - Ring] = EmptyWrapper] ELSE @,
+                        \* what `clear` has to reset when the object is recycled: the first votes, the double-voter marks, the
+                        \* counts AND the stored vote sets of the old context.  Kept in the state so that behaviours are
+                        \* distinguished by what the recycled tally object held (the code under test may forget part of it)
+                        !.gone = IF ni > Ring THEN [@ EXCEPT ![ni - Ring] = x.wr[ni - Ring]] ELSE @]
 
 \* processVoteMsg :515-519: a vote labelled msgSame whose (round, index) is not the voter's is dropped
 RecvAs(x, s, k, b, ii, cred, as) == IF as = "same" /\ ii # x.i THEN x ELSE Recv(x, s, k, b, ii, cred)
@@ -222,7 +226,8 @@ Deliver == \E s \in Peers, k \in KSet \cap (IF CertRound THEN K3 ELSE K3 \ {"Cer
                       IF cred = "ok" /\ ~lost /\ df[ii][k][s] = Nil THEN [df EXCEPT ![ii][k][s] = b] ELSE df)
 
 Init == /\ v = [i |-> 1, step |-> 0, pc |-> FALSE, cd |-> FALSE, cm |-> FALSE, over |-> {},
-                wr |-> [ii \in 1..MaxI |-> EmptyWrapper], cache |-> [ii \in 1..MaxI |-> <<>>], out |-> <<>>]
+                wr |-> [ii \in 1..MaxI |-> EmptyWrapper], gone |-> [ii \in 1..MaxI |-> EmptyWrapper],
+                cache |-> [ii \in 1..MaxI |-> <<>>], out |-> <<>>]
         /\ dl = [ii \in 1..MaxI |-> [k \in K3 |-> [s \in Peers |-> {}]]] /\ dln = dl
         /\ df = [ii \in 1..MaxI |-> [k \in K3 |-> [s \in Peers |-> Nil]]]
         /\ ownv = {} /\ flags = {} /\ nmsg = 0 /\ nlost = 0 /\ justc = FALSE
